@@ -143,12 +143,150 @@ let run_i args =
       | _ -> failwith ("bad intern op " ^ op)) (List.tl args) in
   String.concat " " out
 
+(* ------------------------------------------------------------------------------------------ *)
+(* `N <p|r> <events> | <nav ops>` : red-tree traversal programs *)
+let len_counts_nodes = ref true      (* the code after the fix of F2 *)
+let tokens_skip_empty = ref true     (* the code after the fix of F3 *)
+
+let show_pos g rs (p : pos) =
+  let path = String.concat "" (List.map (fun i -> "/" ^ string_of_int (int_of_nat i)) (List.rev p)) in
+  let s = int_of_n (offset_of rs p) in
+  Printf.sprintf "%s%s@%d..%d" (if is_node_at g p then "n" else "t") path s (s + int_of_n (len_at g p))
+
+let rec take_until f = function [] -> [] | x :: r -> if f x then [x] else x :: take_until f r
+
+let nav_step g (regs : pos option list) rs (op : string) : string * pos option * rstate =
+  let parts = Array.of_list (String.split_on_char ':' op) in
+  let name = parts.(0) in
+  let reg i = if i < Array.length parts then (match int_of_string_opt parts.(i) with
+      | Some r -> (match List.nth_opt regs r with Some x -> x | None -> None) | None -> None) else None in
+  match reg 1 with
+  | None -> ("-", None, rs)
+  | Some p ->
+    let node = is_node_at g p in
+    let one (r, rs') = match r with Some q -> (show_pos g rs' q, Some q, rs') | None -> ("-", None, rs') in
+    let lst (l, rs') = ("[" ^ String.concat "," (List.map (show_pos g rs') l) ^ "]", None, rs') in
+    let argn i = int_of_string parts.(i) in
+    let sizes lenf collectf it rs0 =
+      let n = lenf it in
+      let (l, _) = collectf it rs0 in
+      Printf.sprintf "len=%d,cnt=%d,hint=%d-%d,n=%d" n n n n (List.length l) in
+    if node then
+      (match name with
+       | "par" -> one (parent_of p, rs)
+       | "fc" -> one (first_child_gen g true rs p)
+       | "fct" -> one (first_child_gen g false rs p)
+       | "lc" -> one (last_child_gen g true rs p)
+       | "lct" -> one (last_child_gen g false rs p)
+       | "ns" -> one (next_sibling_gen g true rs p)
+       | "nst" -> one (next_sibling_gen g false rs p)
+       | "ps" -> one (prev_sibling_gen g true rs p)
+       | "pst" -> one (prev_sibling_gen g false rs p)
+       | "ft" -> one (first_token g !tokens_skip_empty rs p)
+       | "lt" -> one (last_token g !tokens_skip_empty rs p)
+       | "ch" | "cht" ->
+         let k = argn 2 in
+         let next = if name = "ch" then node_iter_next else elem_iter_next in
+         let rec go i rs it =
+           let ((r, rs'), it') = next rs it in
+           match r with
+           | None -> (None, rs')
+           | Some q -> if i = k then (Some q, rs') else go (i + 1) rs' it' in
+         one (go 0 rs (iter_new g rs p))
+       | "nca" | "ncta" | "pcb" | "pctb" ->
+         (match reg 2 with
+          | Some (i :: q) when q = p ->
+            let c = i :: q in
+            (match name with
+             | "nca" -> one (next_child_after_gen g true rs p i (end_of g rs c))
+             | "ncta" -> one (next_child_after_gen g false rs p i (end_of g rs c))
+             | "pcb" -> one (prev_child_before_gen g true rs p i (start_of rs c))
+             | _ -> one (prev_child_before_gen g false rs p i (start_of rs c)))
+          | _ -> ("-", None, rs))
+       | "tao" ->
+         (match token_at_offset g rs p (n_of_int (argn 2)) with
+          | (Panic q, rs') -> ("PANIC:" ^ panic_code q, None, rs')
+          | (Ok TNone, rs') -> ("none", None, rs')
+          | (Ok (TSingle t), rs') -> ("single " ^ show_pos g rs' t, Some t, rs')
+          | (Ok (TBetween (l, r)), rs') -> ("between " ^ show_pos g rs' l ^ " " ^ show_pos g rs' r, Some r, rs'))
+       | "cov" ->
+         (match covering_element g rs p (n_of_int (argn 2)) (n_of_int (argn 3)) with
+          | (Panic q, rs') -> ("PANIC:" ^ panic_code q, None, rs')
+          | (Ok e, rs') -> (show_pos g rs' e, Some e, rs'))
+       | "anc" -> lst (ancestors g p, rs)
+       | "sib+" -> lst (siblings g true true rs p)
+       | "sib-" -> lst (siblings g true false rs p)
+       | "sibt+" -> lst (siblings g false true rs p)
+       | "sibt-" -> lst (siblings g false false rs p)
+       | "chs" -> lst (children_nodes g rs p)
+       | "chts" -> lst (children_elems g rs p)
+       | "desc" -> lst (descendants g true rs p)
+       | "desct" -> lst (descendants g false rs p)
+       | "pre" | "pret" ->
+         let (l, rs') = preorder g (name = "pre") rs p in
+         ("[" ^ String.concat "," (List.map (function Enter q -> "+" ^ show_pos g rs' q | Leave q -> "-" ^ show_pos g rs' q) l) ^ "]", None, rs')
+       | "sz" | "szt" ->
+         let nodes = (name = "sz") in
+         let lenf it = int_of_nat (if nodes then node_iter_len !len_counts_nodes it else elem_iter_len it) in
+         let collectf it rs0 =
+           let next = if nodes then node_iter_next else elem_iter_next in
+           let rec go acc rs it = let ((r, rs'), it') = next rs it in
+             match r with None -> (List.rev acc, rs') | Some q -> go (q :: acc) rs' it' in
+           go [] rs0 it in
+         let it0 = iter_new g rs p in
+         let a = sizes lenf collectf it0 rs in
+         let ((_, rs1), it1) = (if nodes then node_iter_next else elem_iter_next) rs it0 in
+         let b = sizes lenf collectf it1 rs1 in
+         (* the clones used for counting materialise the remaining children as well *)
+         let (_, rs2) = collectf it0 rs in
+         (a ^ "|" ^ b, None, rs2)
+       | "ar" ->
+         let cs = kids g p in
+         (Printf.sprintf "%d,%d" (List.length (List.filter is_node cs)) (List.length cs), None, rs)
+       | _ -> ("-", None, rs))
+    else
+      (match name with
+       | "par" -> one (parent_of p, rs)
+       | "nst" -> one (next_sibling_gen g false rs p)
+       | "pst" -> one (prev_sibling_gen g false rs p)
+       | "nt" -> one (next_token g !tokens_skip_empty rs p)
+       | "pt" -> one (prev_token g !tokens_skip_empty rs p)
+       | "ft" | "lt" -> one (Some p, rs)
+       | "anc" -> lst (ancestors g p, rs)
+       | "sibt+" -> lst (siblings g false true rs p)
+       | "sibt-" -> lst (siblings g false false rs p)
+       | _ -> ("-", None, rs))
+
+let build_green toks =
+  let ops = List.map parse_op toks in
+  let (sf, _) = b_run static_text hash0 (threshold ()) HeadAndChildren !debug true (new_builder empty_cache) [] ops in
+  match b_finish sf with
+  | Ok (g, c) -> Ok (g, c)
+  | Panic p -> Panic p
+
+let run_n args =
+  let rest = List.tl args in
+  let rec split acc = function [] -> (List.rev acc, []) | "|" :: r -> (List.rev acc, r) | x :: r -> split (x :: acc) r in
+  let (evs, nav) = split [] rest in
+  match build_green evs with
+  | Panic p -> "BUILD-PANIC:" ^ panic_code p
+  | Ok (g, _) ->
+    let regs = ref [Some []] and rs = ref [] and outs = ref [] in
+    List.iter (fun op ->
+        let (s, r, rs') = nav_step g !regs !rs op in
+        outs := s :: !outs; regs := !regs @ [r]; rs := rs') nav;
+    let (all, rsf) = descendants g false !rs [] in
+    let held = List.map (function Some p -> show_pos g rsf p | None -> "-") !regs in
+    String.concat " ; " (List.rev !outs) ^ " ;; " ^ String.concat " " held ^ " ;; "
+    ^ String.concat "," (List.map (show_pos g rsf) all)
+
 let run_line line =
   match List.filter (fun s -> s <> "") (String.split_on_char ' ' line) with
   | [] -> ""
   | "B" :: args -> run_b args
   | "H" :: args -> run_h args
   | "I" :: args -> run_i args
+  | "N" :: args -> run_n args
   | "P" :: _ -> "ok"
   | "L" :: args -> run_h args ^ " || leak 0"
   | k :: _ -> "?unknown-case-kind " ^ k
